@@ -128,6 +128,11 @@ func run(seed int64, n int, dir string, _ []string) {
 				}
 			}
 		}
+		if t == 0 {
+			// corpus: the minimal witness of known finding F18 always runs first
+			ncols, mixed, nrows = 1, true, 3
+			rows = [][]value.Primary{{value.NewInteger(9007199254740993)}, {value.NewFloat(9007199254740992)}, {value.NewInteger(9007199254740992)}}
+		}
 		cols := make([]string, ncols)
 		for j := range cols {
 			cols[j] = fmt.Sprintf("c%d", j+1)
